@@ -324,6 +324,10 @@ func (mm *Method) fillRequest(requestObject *j5schema.ObjectSchema) error {
 	responseSchema := mm.ResponseBody
 
 	if isQueryRequest {
+		if responseSchema == nil {
+			// a raw (HttpBody) response has no schema to take the list fields from
+			return fmt.Errorf("build list request: method has no response body")
+		}
 		listRequest, err := buildListRequest(responseSchema)
 		if err != nil {
 			return fmt.Errorf("build list request: %w", err)
